@@ -65,17 +65,20 @@ Proof.
 Qed.
 
 Definition d55_hist : list op := [ONewTd; ONewTd; OLock 0; OLock 1; ONewLazy [0; 1]; OLock 2].
+Definition d55_state : st := match run auto_fuel init d55_hist with Some (s, _) => s | None => init end.
+Definition d55_after : st := match step 9 d55_state (OUnlock 0) with Some (s, _) => s | None => init end.
 Lemma lazy_lock_noop_refuted_D55 :
-  exists s s', run auto_fuel init d55_hist = Some (s, [Done; Done; Done; Done; Done; Done]) /\
-               is_locked 9 (hp s) 2 = Some true /\ child (hp s) 2 0 /\
-               step 9 s (OUnlock 0) = Some (s', Done) /\ is_locked 9 (hp s') 2 = Some false.
-Proof. vm_compute. eexists. eexists. repeat split. left. reflexivity. Qed.
+  option_map snd (run auto_fuel init d55_hist) = Some [Done; Done; Done; Done; Done; Done] /\
+  is_locked 9 (hp d55_state) 2 = Some true /\ child (hp d55_state) 2 0 /\
+  option_map snd (step 9 d55_state (OUnlock 0)) = Some Done /\ is_locked 9 (hp d55_after) 2 = Some false.
+Proof. vm_compute. repeat split. left. reflexivity. Qed.
 
 Definition d56_hist : list op := [ONewTd; ONewLazy []; OSet 0 "L" (VNode 1); OLock 0; OUnlock 1; ONewTd; OAppend 1 2].
+Definition d56_state : st := match run auto_fuel init d56_hist with Some (s, _) => s | None => init end.
 Lemma hollow_lazy_refuted_D56 :
-  exists s, run auto_fuel init d56_hist = Some (s, [Done; Done; Done; Done; Done; Done; Done]) /\
-            flag_true (hp s) 0 = true /\ child (hp s) 0 1 /\ children (hp s) 1 = [2].
-Proof. vm_compute. eexists. repeat split. left. reflexivity. Qed.
+  option_map snd (run auto_fuel init d56_hist) = Some [Done; Done; Done; Done; Done; Done; Done] /\
+  flag_true (hp d56_state) 0 = true /\ child (hp d56_state) 0 1 /\ children (hp d56_state) 1 = [2].
+Proof. vm_compute. repeat split. left. reflexivity. Qed.
 
 Definition key3 := (string * string * string)%type.
 Definition key3_eqb (a b : key3) : bool :=
